@@ -15,6 +15,7 @@ import (
 	"errors"
 	"fmt"
 	"io"
+	"time"
 
 	dragonboat "github.com/lni/dragonboat/v4"
 	"github.com/lni/dragonboat/v4/config"
@@ -321,6 +322,150 @@ func restartProbe(ps probeStore, batches [][]upd, k key) (evs []event, err error
 	return evs, nil
 }
 
+func waitFilesStable(fs *gvfs.MemFS, dir string) {
+	last := -1
+	same := 0
+	for i := 0; i < 100 && same < 5; i++ {
+		n := 0
+		var walk func(d string)
+		walk = func(d string) {
+			names, err := fs.List(d)
+			if err != nil {
+				return
+			}
+			for _, x := range names {
+				p := fs.PathJoin(d, x)
+				if st, err := fs.Stat(p); err == nil && st.IsDir() {
+					walk(p)
+				} else {
+					n++
+				}
+			}
+		}
+		walk(dir)
+		if n == last {
+			same++
+		} else {
+			same, last = 0, n
+		}
+		time.Sleep(10 * time.Millisecond)
+	}
+}
+
+// rotateCompactProbe: two replicas of one host (shards 1 and 17: one tan db when the logs are
+// multiplexed). The idle replica (1,1) persists entries and later a state-only update (a vote
+// in a new term), then writes nothing more. The busy replica (17,1) keeps writing so that the
+// log file rotates, records a snapshot and compacts its log (RemoveEntriesTo), which lets the
+// store delete the log files it considers obsolete. Clean restart; everything both replicas
+// were told is durable must be readable.
+func rotateCompactProbe(ps probeStore) (evs []event, err error) {
+	fs := gvfs.NewStrictMem()
+	var db raftio.ILogDB
+	if p := vh.Catch(func() { db, err = openStore(ps, fs) }); p != "" || err != nil {
+		return nil, fmt.Errorf("open %s: %v %s", ps.name, err, p)
+	}
+	for _, s := range []uint64{1, 17} {
+		if _, perr := hooks.TanPreopen(db, s, 1, 4096); perr != nil {
+			return nil, fmt.Errorf("preopen %s: %v", ps.name, perr)
+		}
+	}
+	batch := uint64(0)
+	save := func(u upd, cmdSize int) error {
+		pu := toPBUpdate(u)
+		for j := range pu.EntriesToSave {
+			pu.EntriesToSave[j].Cmd = make([]byte, cmdSize)
+		}
+		pu.Messages = nil
+		if pu.Snapshot.Index != 0 {
+			pu.Snapshot.ShardID = u.shard
+			pu.Snapshot.Filepath = "/probe-snapshots/none"
+			pu.Snapshot.Membership = pb.Membership{ConfigChangeId: 1, Addresses: map[uint64]string{1: "a1", 2: "a2", 3: "a3"}}
+		}
+		var serr error
+		if p := vh.Catch(func() { serr = db.SaveRaftState([]pb.Update{pu}, pu.ShardID%2+1) }); p != "" || serr != nil {
+			return fmt.Errorf("SaveRaftState %s: %v %s", ps.name, serr, p)
+		}
+		batch++
+		k := key{u.shard, u.replica}
+		evs = append(evs, event{kind: 'P', k: k, worker: 1, batch: batch, u: u})
+		for _, m := range u.msgs {
+			evs = append(evs, event{kind: 'Q', k: k, worker: 1, m: m})
+		}
+		return nil
+	}
+	busy := func(from, to uint64) error {
+		for i := from; i <= to; i++ {
+			if e := save(withEnts(st(17, 1, 7, 1, i), i, 7), 1024); e != nil {
+				return e
+			}
+		}
+		return nil
+	}
+	if err = save(withMsg(withEnts(st(1, 1, 4, 3, 3), 1, 4, 4, 4), ack(1, 3, 4, 3)), 16); err != nil {
+		return nil, err
+	}
+	if err = busy(1, 10); err != nil {
+		return nil, err
+	}
+	// the idle replica grants its vote in term 5 and goes quiet
+	if err = save(withMsg(st(1, 1, 5, 2, 3), grant(1, 2, 5)), 16); err != nil {
+		return nil, err
+	}
+	if err = busy(11, 40); err != nil {
+		return nil, err
+	}
+	// the busy replica records a snapshot at 35 and compacts its log up to it
+	// (a locally taken snapshot is recorded through SaveSnapshots, as the snapshotter does)
+	ssu := snap(upd{shard: 17, replica: 1, fast: true}, 35, 7)
+	spu := toPBUpdate(ssu)
+	spu.Snapshot.ShardID = 17
+	spu.Snapshot.Filepath = "/probe-snapshots/none"
+	spu.Snapshot.Membership = pb.Membership{ConfigChangeId: 1, Addresses: map[uint64]string{1: "a1", 2: "a2", 3: "a3"}}
+	var sserr error
+	if p := vh.Catch(func() { sserr = db.SaveSnapshots([]pb.Update{spu}) }); p != "" || sserr != nil {
+		return nil, fmt.Errorf("SaveSnapshots %s: %v %s", ps.name, sserr, p)
+	}
+	batch++
+	evs = append(evs, event{kind: 'P', k: key{17, 1}, worker: 0, batch: batch, u: ssu})
+	var cerr error
+	if p := vh.Catch(func() { cerr = db.RemoveEntriesTo(17, 1, 35) }); p != "" || cerr != nil {
+		return nil, fmt.Errorf("RemoveEntriesTo %s: %v %s", ps.name, cerr, p)
+	}
+	if p := vh.Catch(func() {
+		if ch, e := db.CompactEntriesTo(17, 1, 35); e == nil && ch != nil {
+			select {
+			case <-ch:
+			case <-time.After(2 * time.Second):
+			}
+		}
+	}); p != "" {
+		return nil, fmt.Errorf("CompactEntriesTo %s: panic %s", ps.name, p)
+	}
+	waitFilesStable(fs, "/probe")
+	// clean restart (a power cut could resurrect a deleted file whose directory was not synced)
+	_ = vh.Catch(func() { _ = db.Close() })
+	evs = append(evs, event{kind: 'X'})
+	if p := vh.Catch(func() { db, err = openStore(ps, fs) }); p != "" || err != nil {
+		evs = append(evs, event{kind: 'F', k: key{1, 1}, index: 0}, event{kind: 'F', k: key{17, 1}, index: 0})
+		return evs, nil
+	}
+	defer func() { _ = vh.Catch(func() { _ = db.Close() }) }()
+	for _, s := range []uint64{1, 17} {
+		_, _ = hooks.TanPreopen(db, s, 1, 4096)
+	}
+	waitFilesStable(fs, "/probe")
+	for _, k := range []key{{1, 1}, {17, 1}} {
+		var img image
+		var rerr error
+		if p := vh.Catch(func() { img, rerr = readBack(db, k) }); p != "" || rerr != nil {
+			evs = append(evs, event{kind: 'F', k: k, index: 0})
+			continue
+		}
+		evs = append(evs, event{kind: 'C', k: k, rec: img})
+	}
+	return evs, nil
+}
+
 func snap(u upd, index, term uint64) upd { u.snapIndex, u.snapTerm = index, term; return u }
 
 type restartShape struct {
@@ -489,6 +634,18 @@ func genProbeCases(r *vh.Rand, w *vh.LineWriter, tier string, peerTraces [][]eve
 		emitRun(ps, acked, []upd{withEnts(st(2, 3, 4, 1, 5), 6, 4, 4, 4)}, "torn-entries")
 		emitRun(ps, [][]upd{{base(1), base(17)}, {mk("vote", 1), mk("entries", 17)}}, []upd{mk("term", 1), withEnts(st(17, 1, 4, 0, 2), 6, 4, 4)}, "torn-pair")
 		emitRun(ps, [][]upd{{st(1, 1, 5, 0, 3)}, {withMsg(st(1, 1, 5, 2, 3), grant(1, 2, 5))}}, []upd{st(1, 1, 6, 0, 3)}, "torn-vote")
+	}
+	// log rotation + compaction of a busy replica next to an idle one
+	for _, ps := range probeStores {
+		evs, err := rotateCompactProbe(ps)
+		if err != nil {
+			notes["probe_errors"]++
+			fmt.Fprintf(stderrW, "c04: rotate/compact probe %s: %v\n", ps.name, err)
+			continue
+		}
+		w.Printf("D%d live probe=rotate-compact store=%s | %s\n", n, ps.name, eventsStr(evs))
+		n++
+		notes["probes_"+ps.name]++
 	}
 	// restart through the real node.replayLog / raft.Launch
 	for _, sh := range restartShapes() {
